@@ -61,12 +61,15 @@ def main():
             res['suite_passes_mutated'] = rc == 0
             if rc != 0:
                 res['suite_output'] = out[-800:]
-        # evaluation copy of /verif (committed state + build output)
+        # evaluation copy of /verif: the committed state (clone) plus the build output
         if not os.path.exists(veval):
-            sh(['rsync', '-a', '--exclude', 'work', '--exclude', 'replays', '/verif/', veval + '/'])
+            sh(['git', 'clone', '-q', '/verif', veval])
+            sh(['rsync', '-a', '/verif/lean/.lake', veval + '/lean/'])
+            sh(['rsync', '-a', '/verif/bin', veval + '/'])
         else:
-            sh(['rsync', '-a', '--delete', '--exclude', 'work', '--exclude', 'replays', '--exclude', 'lean/.lake', '--exclude', 'bin',
-                '--exclude', 'evidence', '/verif/', veval + '/'])
+            sh(['git', '-C', veval, 'checkout', '--', '.'])
+            sh(['git', '-C', veval, 'pull', '-q', '--ff-only'])
+        res['verif_commit'] = sh(['git', '-C', veval, 'rev-parse', '--short', 'HEAD'])[1].strip()
         res['checks'] = {}
         for p in props:
             t0 = time.time()
